@@ -533,6 +533,15 @@ func (n *Node) DeliverFee(key Key, fee sdk.Coins, msgs ...sdk.Msg) (abci.Respons
 	return n.DeliverTxBytes(bz)
 }
 
+// DeliverGas is DeliverFee with an explicit gas limit.
+func (n *Node) DeliverGas(key Key, fee sdk.Coins, gas uint64, msgs ...sdk.Msg) (abci.ResponseDeliverTx, error) {
+	bz, err := n.SignTx(key, fee, gas, msgs...)
+	if err != nil {
+		return abci.ResponseDeliverTx{}, err
+	}
+	return n.DeliverTxBytes(bz)
+}
+
 // IsPanicResult tells whether baseapp converted a handler panic into a result.
 func IsPanicResult(res abci.ResponseDeliverTx) bool {
 	return res.Codespace == "undefined" && res.Code == 111222
